@@ -54,7 +54,7 @@ Definition to_lower_name (n : list N) : list N :=
 
 (* ---------------- NameBuilder.unpack ---------------- *)
 Definition ptr_target (c c1 : N) : nat := N.to_nat (N.lor (N.shiftl (N.lxor c 192) 8) c1).
-Definition name_fuel : nat := 300.
+Definition name_fuel : nat := 400.
 
 (* cursors as in the Go code: curr = currOff, ptr = pointers followed, newoff = offset after the first
    pointer, name = bytes collected so far.  Returns (name, newOff). *)
@@ -88,7 +88,7 @@ Fixpoint unpack_name_go (fuel : nat) (msg : list N) (curr ptr newoff : nat) (nam
           let curr2 := S curr1 in
           let newoff' := if Nat.eqb ptr 0 then curr2 else newoff in
           let ptr' := S ptr in
-          if 10 <? ptr' then Err ETooManyPtr else
+          if 127 <? ptr' then Err ETooManyPtr else
           unpack_name_go fuel' msg (ptr_target c c1) ptr' newoff' name
         end
       else Err EReserved
